@@ -791,6 +791,40 @@ META["explanation"] += " " + 'Also (rounds 10-11): publish => wake on every path
 
 META["explanation"] += " " + "Also (round 12 and fifth reading): the default helper is never stopped by call_rcu_data_free and exists before the hand-over splice; per-CPU slots are written in bounds and never over a live helper; the helper's futex use is confined to non-RT helpers; call_rcu_data_init initialises everything the helper reads (queue tail -> head, lock) before pthread_create."
 
+def rule_gpwait(ctx, rep):
+    """RCU-vs-mutex order: call_rcu() runs its body as a reader (read-side critical section; online for qsbr) and may block on the library
+    locks it takes there (call_rcu_mutex on the slow path that creates the default helper).  No library path waits for a grace period while
+    it (or a caller) holds one of those locks: the grace period waits for the call_rcu() caller, which waits for the lock - call_rcu() never
+    returns and its callback never runs."""
+    from .. import lockorder
+    for fl in ALL:
+        F = FL[fl]
+        g = lockorder.LibGraph({fl: ctx.mod(F.lib, "flat"), "cds": ctx.mod("cds", "flat")})
+        acq = g.acq_trans()
+        cr = F.pfx + "_call_rcu"
+        pat.require(cr in g.fns and (F.pfx + "_synchronize_rcu") in g.fns, "%s: call_rcu / synchronize_rcu roots" % fl)
+        L = set(acq.get(cr, ()))
+        pat.require(L, "%s: call_rcu takes no library lock any more (anchor changed: the default helper was created under call_rcu_mutex)" % fl)
+        ctxh = g.context()
+        sync = F.pfx + "_synchronize_rcu"
+        n = 0
+        for f in g.fns.values():
+            hs = None
+            for i in f.all_insts():
+                if sync not in g.callees(i):
+                    continue
+                if hs is None:
+                    hs = g.held(f)
+                    rep.touch(f)
+                n += 1
+                held = set(hs.get(i.id, ())) | ctxh.get(f.name, set())
+                clash = sorted(held & L)
+                rep.check(not clash, "C03.gpwait", "%s.%s@%d" % (fl, f.name, i.line), "grace-period wait with %s held, none of which call_rcu() takes as a reader" % (sorted(held) or "no lock"),
+                          "synchronize_rcu() is called while %s is (or may be) held, and call_rcu() acquires it inside its read-side critical section (default helper creation): "
+                          "a call_rcu() caller blocked on the lock is a reader the grace period waits for - neither returns, the callback is never invoked" % clash, [i.where()])
+        pat.require(n >= 2, "%s: only %d grace-period wait sites found in the library" % (fl, n))
+
+
 RULES = [
     ("C03.helper", rule_helper_loop),
     ("C03.init", rule_init_before_thread),
@@ -811,6 +845,7 @@ RULES = [
     ("C03.select", rule_select),
     ("C03.wake", rule_wake),
     # leftover hand-over and the helper's batch grab are wfcqueue splices (into a live queue for the hand-over)
+    ("C03.gpwait", rule_gpwait),
     ("C03.queue", lambda c, r: pat.shared(__import__("sa.rules.c10", fromlist=["x"]).rule_splice, "C03.queue")(c, r)),
     ("C03.queue", lambda c, r: pat.shared(__import__("sa.rules.c10", fromlist=["x"]).rule_append, "C03.queue")(c, r)),
     ("C03.listtrav", lambda c, r: __import__("sa.rules.c15", fromlist=["x"]).rule_listtrav(c, r, "C03.listtrav")),   # the helper list (teardown, barrier, fork handlers) is walked with these macros
